@@ -145,7 +145,7 @@ func checkC22(c *Ctx) {
 
 func checkC23(c *Ctx) {
 	c.Rule("C23.reload", "Lines.Move re-renders after every successful move (Reload / reloadRange / rebuild post-dominates the nil result of Code.Move / Block.Move) and does not touch the listing when the move was rejected")
-	c.Rule("C23.derived", "derived state: every field of Lines that newLines computes from the order and sizes of the blocks (lines, blockStarts) is re-derived on the success path of a block move, which permutes blocks of different sizes")
+	c.Rule("C23.derived", "derived state: every field of Lines that newLines computes from the order and sizes of the blocks (lines, blockStarts) is re-derived on every path from the success edge of a block move (which permutes blocks of different sizes) to a return")
 	c.Rule("C23.render", "newLines renders every block of code.Blocks() in order: a blank line between blocks, the block header, then one line per instruction of Block.Instructions(); Reload re-renders blockToLines(code.Index(i)) at blockStarts[i]")
 	pkgLines := pkgUI + "/internal/lines"
 	mv := anchor(c, "(*"+pkgLines+".Lines).Move")
@@ -326,12 +326,39 @@ func checkC23(c *Ctx) {
 		if kind.label == "block-move" {
 			for f := range derived {
 				whole := f.Name() != "lines" // positions change: the field as a whole must be recomputed
-				re := directStore(succ, f)
-				for _, g := range region(succ) {
-					if PkgPathOf(g) == ModulePath+"/"+pkgLines && writes(g, f, whole, 0) {
-						re = true
+				// must-pass: no path from the success edge to a return avoids
+				// every block that re-derives the field
+				rederives := func(b *ssa.BasicBlock) bool {
+					for _, in := range b.Instrs {
+						switch x := in.(type) {
+						case *ssa.Store:
+							if fa, ok := x.Addr.(*ssa.FieldAddr); ok && SameField(FieldOf(fa), f) {
+								return true
+							}
+						case *ssa.Call:
+							if g := x.Call.StaticCallee(); g != nil && PkgPathOf(g) == ModulePath+"/"+pkgLines && writes(g, f, whole, 0) {
+								return true
+							}
+						}
+					}
+					return false
+				}
+				re := true
+				seenB := map[*ssa.BasicBlock]bool{}
+				var walk func(b *ssa.BasicBlock)
+				walk = func(b *ssa.BasicBlock) {
+					if seenB[b] || rederives(b) {
+						return
+					}
+					seenB[b] = true
+					if _, isRet := b.Instrs[len(b.Instrs)-1].(*ssa.Return); isRet {
+						re = false
+					}
+					for _, s := range b.Succs {
+						walk(s)
 					}
 				}
+				walk(succ)
 				c.Oblige("C23.derived", key+"/"+f.Name(), c.Prog.Pos(call.Pos()), re, "Lines."+f.Name()+" is computed from the block order and sizes but is not recomputed after blocks were permuted: with blocks of different sizes the re-rendered blocks overwrite their neighbours' lines")
 			}
 		}
@@ -866,44 +893,221 @@ func checkC31(c *Ctx) {
 		}
 		act := cl.Action
 		key := cmdKey(cl) + "/cyclic-search"
-		bad := "no search loop found"
-		for _, b := range act.Blocks {
-			for _, in := range b.Instrs {
-				ph, ok := in.(*ssa.Phi)
-				if !ok || !isInt(ph.Type()) || headerPhi(ph) == nil {
-					continue
-				}
-				// loop variable of the search: compared != offset, stepped (i+1)%Len
-				var offset ssa.Value
-				if iff, ok := ph.Block().Instrs[len(ph.Block().Instrs)-1].(*ssa.If); ok {
-					if bo, ok := iff.Cond.(*ssa.BinOp); ok && bo.Op == token.NEQ && bo.X == ssa.Value(ph) {
-						offset = bo.Y
-					}
-				}
-				if offset == nil {
-					continue
-				}
-				bad = ""
-				if !matches(offset, Method("Value", Any())) {
-					bad = "the search does not stop at the cursor line"
-				}
-				for _, e := range ph.Edges {
-					isStep := DependsOn(e, func(v ssa.Value) bool { return v == ssa.Value(ph) })
-					mod := matches(e, Bin(token.REM, Any(), func(v ssa.Value, _ *Bind) bool { return isLenLike(v) }))
-					if isStep && !mod {
-						bad = "the search step is not reduced modulo the number of lines"
-					}
-					if !isStep {
-						// start: (offset+1) % Len
-						if !mod || !matches(e, Bin(token.REM, Bin(token.ADD, func(v ssa.Value, _ *Bind) bool { return SameValue(v, offset) }, IntPat(1)), Any())) {
-							bad = "the search does not start at (cursor+1) modulo the number of lines: with the cursor on the last line the first probe is out of range"
+		bad := cyclicSearch(act)
+		c.Oblige("C31.index", key, c.Prog.Pos(cl.Pos), bad == "", bad)
+	}
+}
+
+// cyclicSearch follows the search of the find command concretely for small
+// listings (E7): for every number of lines cnt, cursor position offset and
+// index k of the first matching probe (or none), the lines probed must be
+// offset+1, offset+2, ... (mod cnt) up to the first match and never the cursor
+// line itself; a match moves the cursor to exactly the matching line, no match
+// ends in an error without moving the cursor. The form of the loop is free.
+func cyclicSearch(act *ssa.Function) string {
+	var valueCall, lenCall ssa.Value
+	var start *ssa.BasicBlock
+	for _, cs := range Calls(act) {
+		f := Callee(cs.Common())
+		if f == nil {
+			continue
+		}
+		switch {
+		case f.Name() == "Value" && strings.Contains(f.String(), "cursor.Cursor"):
+			valueCall = cs.Instr.(ssa.Value)
+			if start == nil || cs.Instr.Block().Dominates(start) {
+				start = cs.Instr.Block()
+			}
+		case f.Name() == "Len" && strings.Contains(f.String(), "lines.Lines"):
+			lenCall = cs.Instr.(ssa.Value)
+			if start == nil || cs.Instr.Block().Dominates(start) {
+				start = cs.Instr.Block()
+			}
+		}
+	}
+	if valueCall == nil || lenCall == nil {
+		return "the search does not read the cursor position and the number of lines"
+	}
+	isCall := func(in ssa.Instruction, name, recv string) *ssa.Call {
+		call, ok := in.(*ssa.Call)
+		if !ok {
+			return nil
+		}
+		f := call.Call.StaticCallee()
+		if f == nil || f.Name() != name || !strings.Contains(f.String(), recv) {
+			return nil
+		}
+		return call
+	}
+	for cnt := int64(1); cnt <= 5; cnt++ {
+		for offset := int64(0); offset < cnt; offset++ {
+			var want []int64
+			for j := int64(1); j < cnt; j++ {
+				want = append(want, (offset+j)%cnt)
+			}
+			for k := -1; k < len(want); k++ {
+				var probes []int64
+				var setArg *int64
+				matches, evalFail := 0, false
+				var vl *Valuation
+				vl = &Valuation{
+					Int: func(v ssa.Value) (int64, bool) {
+						switch v {
+						case valueCall:
+							return offset, true
+						case lenCall:
+							return cnt, true
 						}
+						return 0, false
+					},
+					Bool: func(v ssa.Value) (bool, bool) {
+						if call, ok := v.(*ssa.Call); ok && isCall(call, "MatchString", "regexp.Regexp") != nil {
+							return matches-1 == k, true
+						}
+						return false, false
+					},
+				}
+				vl.Visit = func(in ssa.Instruction) {
+					if call := isCall(in, "Index", "lines.Lines"); call != nil {
+						n, ok := vl.EvalInt(call.Call.Args[len(call.Call.Args)-1], nil)
+						if !ok {
+							evalFail = true
+						}
+						probes = append(probes, n)
+					}
+					if isCall(in, "MatchString", "regexp.Regexp") != nil {
+						matches++
+					}
+					if call := isCall(in, "Set", "cursor.Cursor"); call != nil && setArg == nil {
+						n, ok := vl.EvalInt(call.Call.Args[len(call.Call.Args)-1], nil)
+						if !ok {
+							evalFail = true
+						}
+						setArg = &n
+					}
+				}
+				res := vl.Walk(start, nil)
+				where := fmt.Sprintf("with %d lines, the cursor on line %d and ", cnt, offset)
+				if k < 0 {
+					where += "no matching line"
+				} else {
+					where += fmt.Sprintf("the first match on line %d", want[k])
+				}
+				if evalFail || (!res.OK && setArg == nil) {
+					return where + ": the search cannot be followed (" + res.Why + ")"
+				}
+				exp := want
+				if k >= 0 {
+					exp = want[:k+1]
+				}
+				if fmt.Sprint(probes) != fmt.Sprint(exp) {
+					return fmt.Sprintf("%s the lines probed are %v, expected %v (every line after the cursor in cyclic order, never the cursor line)", where, probes, exp)
+				}
+				if k >= 0 {
+					if setArg == nil || *setArg != want[k] {
+						return where + " the cursor is not moved to that line"
+					}
+				} else {
+					if setArg != nil {
+						return where + fmt.Sprintf(" the cursor is moved (to line %d)", *setArg)
+					}
+					ret, isRet := res.End.(*ssa.Return)
+					if !isRet || IsNilConst(ret.Results[0]) {
+						return where + " the command does not end in an error"
 					}
 				}
 			}
 		}
-		c.Oblige("C31.index", key, c.Prog.Pos(cl.Pos), bad == "", bad)
 	}
+	return ""
+}
+
+// block2LinesWalk follows block2Lines concretely (E7) for every block
+// [B,E) with 0 <= B < E <= 50: the rows produced must be, in address order,
+// one per 16-byte aligned window that overlaps the block, each with the
+// window's address and the single range window ∩ block.
+func block2LinesWalk(bl *ssa.Function) string {
+	const per = 16
+	recvCall := func(v ssa.Value, name string) bool {
+		call, ok := v.(*ssa.Call)
+		if !ok || len(call.Call.Args) != 1 || Unwrap(call.Call.Args[0]) != ssa.Value(bl.Params[0]) {
+			return false
+		}
+		f := call.Call.StaticCallee()
+		return f != nil && Origin(f).Name() == name
+	}
+	type row struct{ addr, b, e int64 }
+	for B := int64(0); B < 50; B++ {
+		for E := B + 1; E <= 50; E++ {
+			var want []row
+			for w := B / per * per; w < E; w += per {
+				r := row{addr: w, b: w, e: w + per}
+				if r.b < B {
+					r.b = B
+				}
+				if r.e > E {
+					r.e = E
+				}
+				want = append(want, r)
+			}
+			var got []row
+			var addrs []int64
+			evalFail := ""
+			var vl *Valuation
+			vl = &Valuation{Int: func(v ssa.Value) (int64, bool) {
+				if recvCall(v, "Begin") {
+					return B, true
+				}
+				if recvCall(v, "End") {
+					return E, true
+				}
+				return 0, false
+			}}
+			vl.Visit = func(in ssa.Instruction) {
+				switch x := in.(type) {
+				case *ssa.Call:
+					f := x.Call.StaticCallee()
+					if f != nil && Origin(f).Name() == "New" && PkgPathOf(f) == IntervalPkg {
+						b, ok1 := vl.EvalInt(x.Call.Args[0], nil)
+						e, ok2 := vl.EvalInt(x.Call.Args[1], nil)
+						if !ok1 || !ok2 {
+							evalFail = "the bounds of a row's range cannot be evaluated"
+						}
+						got = append(got, row{b: b, e: e})
+					}
+				case *ssa.Store:
+					if fa, ok := x.Addr.(*ssa.FieldAddr); ok && FieldOf(fa) != nil && FieldOf(fa).Name() == "addr" {
+						a, ok := vl.EvalInt(x.Val, nil)
+						if !ok {
+							evalFail = "a row's address cannot be evaluated"
+						}
+						addrs = append(addrs, a)
+					}
+				}
+			}
+			res := vl.Walk(bl.Blocks[0], nil)
+			where := fmt.Sprintf("for the stored block [%#x,%#x)", B, E)
+			if !res.OK {
+				return where + " the function cannot be followed: " + res.Why
+			}
+			if evalFail != "" {
+				return where + " " + evalFail
+			}
+			if _, isRet := res.End.(*ssa.Return); !isRet {
+				return where + " block2Lines panics"
+			}
+			if len(addrs) != len(got) {
+				return where + " rows and row addresses do not pair up"
+			}
+			for i := range got {
+				got[i].addr = addrs[i]
+			}
+			if fmt.Sprint(got) != fmt.Sprint(want) {
+				return fmt.Sprintf("%s the rows (address, range begin, range end) are %v, expected %v: one row per 16-byte window overlapping the block, holding window ∩ block", where, got, want)
+			}
+		}
+	}
+	return ""
 }
 
 func headerPhi(p *ssa.Phi) *ssa.Phi {
@@ -939,32 +1143,9 @@ func checkC32(c *Ctx) {
 	})
 	c.RequireCount("C32.index index uses in memview/view.go", n, 1)
 	if bl := anchor(c, pkgMv+".block2Lines"); bl != nil {
-		// interval.New(b, e): b = max(i, block.Begin()), e = min(i+bytesPerLine, block.End())
-		ok := false
-		for _, cs := range Calls(bl) {
-			f := Callee(cs.Common())
-			if f == nil || Origin(f).Name() != "New" || PkgPathOf(f) != IntervalPkg {
-				continue
-			}
-			b, isB := cs.Common().Args[0].(*ssa.Phi)
-			e, isE := cs.Common().Args[1].(*ssa.Phi)
-			if !isB || !isE {
-				continue
-			}
-			hasBegin, hasEnd := false, false
-			for _, x := range b.Edges {
-				if matches(x, Method("Begin", Any())) {
-					hasBegin = true
-				}
-			}
-			for _, x := range e.Edges {
-				if matches(x, Method("End", Any())) {
-					hasEnd = true
-				}
-			}
-			ok = hasBegin && hasEnd
-		}
-		c.Oblige("C32.rows", ShortName(bl), c.Prog.FuncPos(bl), ok, "a row's range is not the intersection of its window with the block")
+		bad := block2LinesWalk(bl)
+		c.Oblige("C32.rows", ShortName(bl), c.Prog.FuncPos(bl), bad == "", bad)
+		_ = token.ADD
 	}
 	for _, cl := range findCommands(c) {
 		if cl.Key != "address" || cl.Action == nil {
